@@ -31,7 +31,7 @@ manifest = {
     "setup_cmd": "./setup.sh",
     "hooks": {
         "guard": "verif",
-        "enable": "checks build /repo with `go build -tags verif` (GOTOOLCHAIN=local go1.26.8, -mod=readonly); yield points for C10/C07 come from a build overlay generated at check time from the current sources, not from committed hooks",
+        "enable": "checks build /repo with `go build -tags verif` (GOTOOLCHAIN=local go1.26.8, -mod=readonly); yield points for C10 come from a build overlay generated at check time from the current sources, not from committed hooks (no hook commit exists in /repo)",
         "baseline_off_cmd": "cd /repo && GOTOOLCHAIN=local GOPROXY=off GOFLAGS=-mod=readonly go1.26.8 test -json -vet=off -count=1 -timeout 25m ./...",
         "source_commits": HOOK_COMMITS,
         "add_only": True,
